@@ -262,14 +262,18 @@ class CollisionArray:
                             basisSizeFile = size
                             basisTypeFile = btype
                         else:
-                            assert (
-                                size == basisSizeFile
-                            ), """CollisionArray error: All the collision files must
-                            have the same basis size."""
-                            assert (
-                                btype == basisTypeFile
-                            ), """CollisionArray error: All the collision files must
-                            have the same basis type."""
+                            if size != basisSizeFile:
+                                raise CollisionLoadError(
+                                    f"""CollisionArray error: All the collision files
+                                    must have the same basis size, but {filename} has
+                                    {size} instead of {basisSizeFile}."""
+                                )
+                            if btype != basisTypeFile:
+                                raise CollisionLoadError(
+                                    f"""CollisionArray error: All the collision files
+                                    must have the same basis type, but {filename} has
+                                    {btype} instead of {basisTypeFile}."""
+                                )
 
                         collisionFileArray[i, :, :, j, :, :] = collisionDataset
                         
